@@ -667,7 +667,10 @@ CHECKS = {'C01': {'level': 'exploration',
                  'K pooled transaction objects into use, 1.3-1.7 s later K nested inserts give their rows a TTL slightly longer than that idle '
                  'period: each row must be present while "call time + ttl" is more than a second away | since round 6: an hour-long TTL shortened to '
                  'a few milliseconds with a NEGATIVE Extend must expire | TestC17SlowVacuum (since round 7): cleanup interval 1.5 s, rows with a TTL '
-                 'of 2.9 s must survive the pass that looks at them 1.4 s before their deadline',
+                 'of 2.9 s must survive the pass that looks at them 1.4 s before their deadline | TestC17SlowVacuum (round 8) also holds a keyed '
+                 'collection with the same 1.5 s cleanup interval: a row with a 50 ms TTL is overdue but still owns its key until the cleanup comes '
+                 'by; every 100 ms InsertKey of that key WITHOUT a TTL is attempted; whatever the call answers, a row that it reported as created is '
+                 'never removed (sampled every 100 ms for 3.6 s, across two cleanup passes)',
          'assumptions': ['wall-clock property: margins (1 s safety guard band, 10 s liveness bound = >200x the expected latency) instead of a clock '
                          'hook; a run on a machine stalled for more than the margins would be inconclusive, never a violation of safety',
                          'timing is not reproducible bit-for-bit; the case (rows, TTLs, interval, mode) is'],
